@@ -759,3 +759,267 @@ Proof.
   intros Hp. destruct (run_inv g Hp h (init g) (init_inv g Hp)) as (H1 & H2 & _). cbn [step].
   destruct (boot_effect g _ H1 H2 Hp) as (B1 & B2 & _ & _ & B5 & B6 & B7 & B8 & B9 & _). cbn zeta in *. auto 10.
 Qed.
+
+(* ================================================================== Part 5: establishment and deletion *)
+(* ---- batches of INSERTs: nothing that exists changes; every key of the batch is bound afterwards, to the batch's
+   own entry unless the key was bound before (or earlier in the batch) *)
+Lemma insert_apply_mono e s k v : get_key k (sw_entries s) = Some v -> get_key k (sw_entries (fst (sw_apply (NUTable UInsert e) s))) = Some v.
+Proof.
+  intros H. destruct (sw_apply_table UInsert e s k) as [G _]. rewrite G. unfold expect_table.
+  destruct (nkey_eqb (key_of e) k) eqn:E; [|exact H]. apply nkey_eqb_eq in E. subst. rewrite H. reflexivity.
+Qed.
+
+Lemma insert_batch es : forall s,
+  let s' := fst (sw_batch (map (NUTable UInsert) es) s) in
+  (forall k v, get_key k (sw_entries s) = Some v -> get_key k (sw_entries s') = Some v) /\
+  (forall e, In e es -> exists e', get_key (key_of e) (sw_entries s') = Some e' /\
+                                   (e' = e \/ has_key (key_of e) (sw_entries s) = true \/ ~ NoDup (map key_of es))).
+Proof.
+  induction es as [|e es IH]; intros s; cbn [map sw_batch].
+  - cbn. split; [auto|intros e []].
+  - destruct (sw_apply (NUTable UInsert e) s) as [s1 c1] eqn:E1. destruct (sw_batch (map (NUTable UInsert) es) s1) as [s2 cs] eqn:E2.
+    cbn [fst]. specialize (IH s1). rewrite E2 in IH. cbn [fst] in IH. destruct IH as [M B].
+    assert (M1 : forall k v, get_key k (sw_entries s) = Some v -> get_key k (sw_entries s1) = Some v).
+    { intros k v H. change s1 with (fst (s1, c1)). rewrite <- E1. apply insert_apply_mono. exact H. }
+    split; [intros k v H; apply M, M1, H|].
+    intros e0 [<-|Hin].
+    + destruct (sw_apply_table UInsert e s (key_of e)) as [G _]. rewrite E1, nkey_eqb_refl in G. cbn [fst] in G. unfold expect_table in G.
+      destruct (get_key (key_of e) (sw_entries s)) as [old|] eqn:Eo; cbn [fst] in G.
+      * exists old. split; [apply M; exact G|]. right. left. rewrite has_key_get, Eo. reflexivity.
+      * exists e. split; [apply M; exact G|]. left. reflexivity.
+    + destruct (B e0 Hin) as [e' [G1 G2]]. exists e'. split; [exact G1|].
+      destruct G2 as [->|[G2|G2]]; [left; reflexivity| |right; right; intros Hn; apply G2; inversion Hn; assumption].
+      (* bound in s1: bound in s already, or it is e's key *)
+      rewrite has_key_get in G2. destruct (sw_apply_table UInsert e s (key_of e0)) as [G _]. rewrite E1 in G. cbn [fst] in G.
+      destruct (nkey_eqb (key_of e) (key_of e0)) eqn:Ek.
+      * apply nkey_eqb_eq in Ek. destruct (has_key (key_of e0) (sw_entries s)) eqn:Eh; [right; left; reflexivity|].
+        right. right. intros Hn. inversion Hn as [|? ? Hni _]; subst. apply Hni. rewrite Ek. apply in_map. exact Hin.
+      * rewrite G in G2. right. left. rewrite has_key_get. exact G2.
+Qed.
+
+(* ---- batches of DELETEs whose statuses are all OK: every key of the batch is unbound afterwards, no key becomes bound *)
+Lemma delete_apply_none e s k : get_key k (sw_entries s) = None -> get_key k (sw_entries (fst (sw_apply (NUTable UDelete e) s))) = None.
+Proof.
+  intros H. destruct (sw_apply_table UDelete e s k) as [G _]. rewrite G. unfold expect_table.
+  destruct (nkey_eqb (key_of e) k) eqn:E; [|exact H]. destruct (get_key (key_of e) (sw_entries s)); reflexivity.
+Qed.
+Lemma delete_batch es : forall s,
+  let r := sw_batch (map (NUTable UDelete) es) s in
+  (forall k, get_key k (sw_entries s) = None -> get_key k (sw_entries (fst r)) = None) /\
+  (tolerated (snd r) = true -> forall e, In e es -> get_key (key_of e) (sw_entries (fst r)) = None).
+Proof.
+  induction es as [|e es IH]; intros s; cbn [map sw_batch].
+  - cbn. split; [auto|intros _ e []].
+  - destruct (sw_apply (NUTable UDelete e) s) as [s1 c1] eqn:E1. destruct (sw_batch (map (NUTable UDelete) es) s1) as [s2 cs] eqn:E2.
+    cbn [fst snd]. specialize (IH s1). rewrite E2 in IH. cbn [fst snd] in IH. destruct IH as [M B].
+    assert (M1 : forall k, get_key k (sw_entries s) = None -> get_key k (sw_entries s1) = None).
+    { intros k H. change s1 with (fst (s1, c1)). rewrite <- E1. apply delete_apply_none. exact H. }
+    split; [intros k H; apply M, M1, H|].
+    cbn [tolerated forallb]. intros Ht. apply andb_true_iff in Ht. destruct Ht as [Ht1 Ht2].
+    intros e0 [<-|Hin]; [|apply B; assumption].
+    apply M. destruct (sw_apply_table UDelete e s (key_of e)) as [G _]. rewrite E1, nkey_eqb_refl in G. cbn [fst] in G. rewrite G.
+    unfold expect_table. destruct (get_key (key_of e) (sw_entries s)); reflexivity.
+Qed.
+
+(* ---- the batch modifyUP4ForwardingConfiguration writes for one PDR, as the model builds it in state [xr] *)
+Definition same_bk (a b : up4) : Prop := u_peers a = u_peers b /\ u_meters a = u_meters b /\ u_f2ue a = u_f2ue b.
+Lemma same_bk_refl a : same_bk a a. Proof. repeat split. Qed.
+Lemma same_bk_trans a b d : same_bk a b -> same_bk b d -> same_bk a d.
+Proof. intros (H1 & H2 & H3) (G1 & G2 & G3). repeat split; congruence. Qed.
+Lemma same_bk_sym a b : same_bk a b -> same_bk b a.
+Proof. intros (H1 & H2 & H3). repeat split; congruence. Qed.
+
+Definition batch_of (c : config) (ty : utype) (fars : list Agent.far) (qers : list Agent.qer) (r : rpdr) (xr : up4) (es : list nentry) : Prop :=
+  exists f se ue x1 ae app_id te,
+    pdr_pre fars r xr = Some (f, se, ue) /\
+    app_step c ty (Agent.p_fseid (rp_pdr r)) (to_pdr r ue) xr = (x1, ae, app_id) /\
+    pdr_term c qers r f ue app_id x1 = Some te /\ es = pdr_batch se ae te.
+
+Lemma add_app_bk c fseid p x x' e id ok : add_app c fseid p x = (x', e, id, ok) -> same_bk x' x.
+Proof.
+  unfold add_app. destruct (app_key p) as [[[ip lo] hi] proto]. destruct (app_get _ _ _ _ _); [intros H; inv_pairs; repeat split|].
+  destruct (u_app_pool x); intros H; inv_pairs; repeat split.
+Qed.
+Lemma remove_app_bk c fseid p x x' e id : remove_app c fseid p x = (x', e, id) -> same_bk x' x.
+Proof.
+  unfold remove_app. destruct (app_key p) as [[[ip lo] hi] proto]. destruct (app_get _ _ _ _ _); [|intros H; inv_pairs; repeat split].
+  destruct (set_del _ _); intros H; inv_pairs; repeat split.
+Qed.
+Lemma app_step_bk c ty fseid bp x x' e id : app_step c ty fseid bp x = (x', e, id) -> same_bk x' x.
+Proof.
+  unfold app_step. destruct (app_filter_empty bp); [intros H; inv_pairs; apply same_bk_refl|].
+  destruct ty; [| |intros Hr; eapply remove_app_bk; eauto|];
+    (destruct (add_app c fseid bp x) as [[[xa ea] ida] oka] eqn:Ea; apply add_app_bk in Ea; destruct oka; intros Hr; inv_pairs; exact Ea).
+Qed.
+
+Lemma one_pdr_ok c ty fars qers r x x' log :
+  one_pdr c ty fars qers r x = (x', log, ROk) ->
+  exists es, batch_of c ty fars qers r x es /\ same_bk x' x /\
+             u_sw x' = fst (sw_batch (map (NUTable ty) es) (u_sw x)) /\ tolerated (snd (sw_batch (map (NUTable ty) es) (u_sw x))) = true.
+Proof.
+  unfold one_pdr. intros H.
+  destruct (pdr_pre fars r x) as [[[f se] ue]|] eqn:Epre; [|inv_pairs].
+  destruct (app_step c ty _ _ x) as [[x1 ae] app_id] eqn:Eapp.
+  destruct (pdr_term c qers r f ue app_id x1) as [te|] eqn:Ete; [|inv_pairs].
+  destruct (write _ _) as [x2 cs] eqn:W in H. destruct (tolerated cs) eqn:Et; inv_pairs.
+  exists (pdr_batch se ae te). apply write_sw in W. destruct W as [-> ->].
+  pose proof (app_step_sw c _ _ _ _ _ _ _ Eapp) as Hs.
+  pose proof (app_step_bk _ _ _ _ _ _ _ _ Eapp) as Hb.
+  split; [exists f, se, ue, x1, ae, app_id, te; auto|]. rewrite Hs in *.
+  split; [|split; [reflexivity | exact Et]].
+  destruct Hb as (B1 & B2 & B3). repeat split; cbn; assumption.
+Qed.
+
+Open Scope string_scope.
+Lemma batch_keys_nodup c ty fars qers r xr es : batch_of c ty fars qers r xr es -> NoDup (map key_of es).
+Proof.
+  intros (f & se & ue & x1 & ae & app_id & te & H1 & H2 & H3 & ->).
+  pose proof (pdr_pre_session _ _ _ _ _ _ H1) as Hs.
+  assert (Ht : In (ne_table te) [t_term_ul; t_term_dl]).
+  { unfold pdr_term in H3. unfold n_termination in H3.
+    destruct (pd_src_iface _ =? access)%N; [inversion H3; unfold n_termination_uplink; destruct (far_drops _ || _); cbn; auto|].
+    destruct (pd_src_iface _ =? core)%N; [|discriminate]. inversion H3. unfold n_termination_downlink. destruct (far_drops _ || _); cbn; auto. }
+  assert (Hss : In (ne_table se) [t_sess_ul; t_sess_dl]).
+  { unfold pdr_pre in H1. destruct (max_uint16 <? _)%N; [discriminate|]. destruct (find_far _ _) as [f0|]; [|discriminate].
+    destruct (peer_get _ _ _); destruct (Agent.a_teid f0 =? 0)%N; try discriminate;
+      (destruct (n_session _ _ _ _) as [se0|] eqn:E; [|discriminate]);
+      (destruct (if is_uplink r then _ else _); [|discriminate]); inversion H1; subst;
+      unfold n_session in E; (destruct (pd_src_iface _ =? access)%N; [inversion E; cbn; auto|]);
+      (destruct (pd_src_iface _ =? core)%N; [|discriminate]); inversion E; unfold n_session_downlink; destruct (far_buffers _); cbn; auto. }
+  assert (Ha : forall e, ae = Some e -> ne_table e = t_apps).
+  { intros e ->. rewrite (app_step_entry _ _ _ _ _ _ _ _ H2). reflexivity. }
+  unfold pdr_batch. destruct ae as [a|]; cbn [List.app map].
+  - specialize (Ha a eq_refl). constructor; [|constructor; [|constructor; [intros []|constructor]]].
+    + intros [H|[H|[]]]; unfold key_of in H; inversion H as [[Hx Hy Hz]];
+        cbn in Hss, Ht; destruct Hss as [E|[E|[]]]; rewrite <- E in Hx; [rewrite Ha in Hx|rewrite Ha in Hx| |]; try discriminate;
+          destruct Ht as [E2|[E2|[]]]; rewrite <- E2 in Hx; discriminate.
+    + intros [H|[]]. unfold key_of in H. inversion H as [[Hx Hy Hz]]. rewrite Ha in Hx.
+      cbn in Ht; destruct Ht as [E2|[E2|[]]]; rewrite <- E2 in Hx; discriminate.
+  - constructor; [|constructor; [intros []|constructor]].
+    intros [H|[]]. unfold key_of in H. inversion H as [[Hx Hy Hz]].
+    cbn in Hss, Ht; destruct Hss as [E|[E|[]]]; rewrite <- E in Hx; destruct Ht as [E2|[E2|[]]]; rewrite <- E2 in Hx; discriminate.
+Qed.
+Close Scope string_scope.
+
+(* accepted INSERT loop: nothing bound before changes; every PDR's batch is bound afterwards, to its own entries where
+   the key was free when the batch was written *)
+Lemma modify_cfg_insert c fars qers : forall pdrs x log x' log',
+  modify_cfg c UInsert pdrs fars qers x log = (x', log', ROk) ->
+  same_bk x' x /\
+  (forall k v, get_key k (sw_entries (u_sw x)) = Some v -> get_key k (sw_entries (u_sw x')) = Some v) /\
+  forall r, In r pdrs -> exists xr es,
+    batch_of c UInsert fars qers r xr es /\ same_bk xr x /\
+    (forall k v, get_key k (sw_entries (u_sw x)) = Some v -> get_key k (sw_entries (u_sw xr)) = Some v) /\
+    forall e, In e es -> exists e', get_key (key_of e) (sw_entries (u_sw x')) = Some e' /\
+                                    (e' = e \/ has_key (key_of e) (sw_entries (u_sw xr)) = true).
+Proof.
+  induction pdrs as [|r pdrs IH]; intros x log x' log' H; cbn in H.
+  - inv_pairs. split; [apply same_bk_refl|]. split; [auto|intros r []].
+  - destruct (one_pdr c UInsert fars qers r x) as [[x1 l1] r1] eqn:E1.
+    destruct r1; try (inv_pairs; fail).
+    destruct (one_pdr_ok _ _ _ _ _ _ _ _ E1) as (es & Hb & Hbk & Hsw & Htol).
+    destruct (IH _ _ _ _ H) as (I1 & I2 & I3).
+    destruct (insert_batch es (u_sw x)) as [M B]. cbn zeta in M, B. rewrite <- Hsw in M, B.
+    split; [eapply same_bk_trans; eauto|]. split; [intros k v Hk; apply I2, M, Hk|].
+    intros r0 [<-|Hin].
+    + exists x, es. split; [exact Hb|]. split; [apply same_bk_refl|]. split; [auto|].
+      intros e He. destruct (B e He) as [e' [G1 G2]]. exists e'. split; [apply I2; exact G1|].
+      destruct G2 as [G2|[G2|G2]]; [left; exact G2 | right; exact G2 | exfalso; apply G2; eapply batch_keys_nodup; eauto].
+    + destruct (I3 r0 Hin) as (xr & es0 & J1 & J2 & J3 & J4). exists xr, es0.
+      split; [exact J1|]. split; [eapply same_bk_trans; eauto|]. split; [intros k v Hk; apply J3, M, Hk | exact J4].
+Qed.
+
+(* accepted DELETE loop: every key of every PDR's batch is unbound afterwards; no key becomes bound *)
+Lemma modify_cfg_delete c fars qers : forall pdrs x log x' log',
+  modify_cfg c UDelete pdrs fars qers x log = (x', log', ROk) ->
+  same_bk x' x /\
+  (forall k, get_key k (sw_entries (u_sw x)) = None -> get_key k (sw_entries (u_sw x')) = None) /\
+  forall r, In r pdrs -> exists xr es,
+    batch_of c UDelete fars qers r xr es /\ same_bk xr x /\ forall e, In e es -> get_key (key_of e) (sw_entries (u_sw x')) = None.
+Proof.
+  induction pdrs as [|r pdrs IH]; intros x log x' log' H; cbn in H.
+  - inv_pairs. split; [apply same_bk_refl|]. split; [auto|intros r []].
+  - destruct (one_pdr c UDelete fars qers r x) as [[x1 l1] r1] eqn:E1.
+    destruct r1; try (inv_pairs; fail).
+    destruct (one_pdr_ok _ _ _ _ _ _ _ _ E1) as (es & Hb & Hbk & Hsw & Htol).
+    destruct (IH _ _ _ _ H) as (I1 & I2 & I3).
+    destruct (delete_batch es (u_sw x)) as [M B]. cbn zeta in M, B. rewrite <- Hsw in M, B.
+    split; [eapply same_bk_trans; eauto|]. split; [intros k Hk; apply I2, M, Hk|].
+    intros r0 [<-|Hin].
+    + exists x, es. split; [exact Hb|]. split; [apply same_bk_refl|]. intros e He. apply I2. apply B; assumption.
+    + destruct (I3 r0 Hin) as (xr & es0 & J1 & J2 & J3). exists xr, es0. split; [exact J1|]. split; [eapply same_bk_trans; eauto | exact J3].
+Qed.
+
+(* ---- keys outside the tunnel_peers table are not affected by counters, meters and tunnel_peers updates *)
+Definition table_of (k : nkey) : string := fst (fst k).
+Definition peer_stage_class (u : nupd) : Prop := match u with NUTable _ e => ne_table e = t_peers | _ => True end.
+Lemma peer_stage_apply k u s : table_of k <> t_peers -> peer_stage_class u ->
+  get_key k (sw_entries (fst (sw_apply u s))) = get_key k (sw_entries s).
+Proof.
+  intros Hk Hu. destruct u as [ty e|id n b|id n]; [|destruct b; reflexivity|reflexivity].
+  destruct (sw_apply_table ty e s k) as [G _]. rewrite G.
+  destruct (nkey_eqb (key_of e) k) eqn:E; [|reflexivity]. apply nkey_eqb_eq in E. exfalso. apply Hk. rewrite <- E. exact Hu.
+Qed.
+
+Lemma create_installs c all upd x orc x' log all' :
+  send_create c all upd x orc = (x', Out ROk log all') ->
+  (forall k v, table_of k <> t_peers -> get_key k (sw_entries (u_sw x)) = Some v -> get_key k (sw_entries (u_sw x')) = Some v) /\
+  forall r, In r all' -> exists xr es,
+    batch_of c UInsert (r_fars all) (r_qers all) r xr es /\ same_bk xr x' /\
+    (forall k v, table_of k <> t_peers -> get_key k (sw_entries (u_sw x)) = Some v -> get_key k (sw_entries (u_sw xr)) = Some v) /\
+    forall e, In e es -> exists e', get_key (key_of e) (sw_entries (u_sw x')) = Some e' /\
+                                    (e' = e \/ has_key (key_of e) (sw_entries (u_sw xr)) = true).
+Proof.
+  unfold send_create. intros H.
+  destruct (alloc_counters _ _ _ _ _ _) as [[[[x1 pdrs1] orc1] log1] r1] eqn:E1.
+  destruct r1; try (inv_pairs; fail).
+  destruct (configure_meters _ _ _ _) as [[[x3 orc3] log3] r3] eqn:E3. unfold configure_meters in E3.
+  destruct r3; try (inv_pairs; fail).
+  destruct (update_peers _ _ _ _) as [[x4 log4] r4] eqn:E4.
+  destruct r4; try (inv_pairs; fail).
+  destruct (modify_cfg _ _ _ _ _ _ _) as [[x5 log5] r5] eqn:E5. inv_pairs.
+  destruct (modify_cfg_insert _ _ _ _ _ _ _ _ E5) as (L1 & L2 & L3).
+  assert (S4 : forall k v, table_of k <> t_peers -> get_key k (sw_entries (u_sw x)) = Some v -> get_key k (sw_entries (u_sw x4)) = Some v).
+  { intros k v Hk Hv.
+    assert (HQ : forall u s, peer_stage_class u -> get_key k (sw_entries s) = Some v -> get_key k (sw_entries (fst (sw_apply u s))) = Some v)
+      by (intros u s Hu Hs; rewrite peer_stage_apply; auto).
+    eapply (update_peers_Q (fun s => get_key k (sw_entries s) = Some v) peer_stage_class HQ); [intros; reflexivity..|exact E4|].
+    eapply (configure_meters_loop_Q (fun s => get_key k (sw_entries s) = Some v) peer_stage_class HQ); [intros; exact I|exact E3|].
+    rewrite fold_ue_update_sw.
+    eapply (alloc_counters_Q (fun s => get_key k (sw_entries s) = Some v) peer_stage_class HQ); [intros; exact I|exact E1|exact Hv]. }
+  split; [intros k v Hk Hv; apply L2, S4; assumption|].
+  intros r Hr. destruct (L3 r Hr) as (xr & es & J1 & J2 & J3 & J4). exists xr, es.
+  split; [exact J1|]. split; [eapply same_bk_trans; [exact J2 | apply same_bk_sym; exact L1]|].
+  split; [intros k v Hk Hv; apply J3, S4; assumption | exact J4].
+Qed.
+
+Definition delete_stage_class (u : nupd) : Prop := match u with NUTable UDelete _ => True | NUTable _ _ => False | _ => True end.
+Lemma delete_stage_apply k u s : delete_stage_class u -> get_key k (sw_entries s) = None -> get_key k (sw_entries (fst (sw_apply u s))) = None.
+Proof.
+  intros Hu H. destruct u as [ty e|id n b|id n]; [|destruct b; exact H|exact H].
+  destruct ty; try (destruct Hu). apply delete_apply_none. exact H.
+Qed.
+
+Lemma delete_removes c del x x' log all' :
+  send_delete c del x = (x', Out ROk log all') ->
+  (forall k, get_key k (sw_entries (u_sw x)) = None -> get_key k (sw_entries (u_sw x')) = None) /\
+  forall r, In r (r_pdrs del) -> exists xr es,
+    batch_of c UDelete (r_fars del) (r_qers del) r xr es /\ same_bk xr x /\
+    forall e, In e es -> get_key (key_of e) (sw_entries (u_sw x')) = None.
+Proof.
+  unfold send_delete. intros H.
+  destruct (modify_cfg _ _ _ _ _ _ _) as [[x2 log2] r2] eqn:E2.
+  destruct r2; try (inv_pairs; fail).
+  destruct (reset_meters _ _ _) as [x3 log3] eqn:E3. destruct (remove_peers _ _ _ _) as [x4 log4] eqn:E4. inv_pairs.
+  destruct (modify_cfg_delete _ _ _ _ _ _ _ _ E2) as (L1 & L2 & L3).
+  assert (S4 : forall k, get_key k (sw_entries (u_sw x2)) = None -> get_key k (sw_entries (u_sw (fold_left ue_remove (r_pdrs del) x4))) = None).
+  { intros k Hk. rewrite fold_ue_remove_sw.
+    assert (HQ : forall u s, delete_stage_class u -> get_key k (sw_entries s) = None -> get_key k (sw_entries (fst (sw_apply u s))) = None)
+      by (intros u s Hu Hs; apply delete_stage_apply; auto).
+    eapply (remove_peers_Q (fun s => get_key k (sw_entries s) = None) delete_stage_class HQ); [intros; exact I|exact E4|].
+    eapply (reset_meters_Q (fun s => get_key k (sw_entries s) = None) delete_stage_class HQ); [intros; exact I|exact E3|exact Hk]. }
+  split; [intros k Hk; apply S4, L2; exact Hk|].
+  intros r Hr. destruct (L3 r Hr) as (xr & es & J1 & J2 & J3). exists xr, es.
+  split; [exact J1|]. split; [destruct J2 as (A1 & A2 & A3); repeat split; assumption|].
+  intros e He. apply S4, J3, He.
+Qed.
